@@ -3,6 +3,7 @@ package main
 import (
 	"os"
 
+	_ "verifharness/internal/c04"
 	"verifharness/internal/core"
 )
 
